@@ -157,6 +157,49 @@ func checkC13(c *core.Ctx) {
 		c.Check("R1", fmt.Sprintf("Validate checks %s for %s", r.facet, r.kind), p.Pos(fd.Pos()), kinds[r.kind][r.facet],
 			fmt.Sprintf("no loop over %s performs the %q check: a schema with %s is accepted and compiled", r.kind, r.facet, r.why))
 	}
+	// a union's own name must also be checked against the names its (and other
+	// unions') branches define: some map is filled with branch names inside a
+	// branch loop and consulted with the union's name in a loop over f.Unions
+	branchSets := map[string]bool{}
+	ast.Inspect(fd.Body, func(m ast.Node) bool {
+		rs, ok := m.(*ast.RangeStmt)
+		if !ok || !strings.HasPrefix(wire.Canon(rs.X), "f.Unions") {
+			return true
+		}
+		ast.Inspect(rs.Body, func(k ast.Node) bool {
+			inner, ok := k.(*ast.RangeStmt)
+			if !ok || !strings.Contains(wire.Canon(inner.X), "ields") {
+				return true
+			}
+			ast.Inspect(inner.Body, func(q ast.Node) bool {
+				if as, ok := q.(*ast.AssignStmt); ok && len(as.Lhs) == 1 {
+					if ix, ok := as.Lhs[0].(*ast.IndexExpr); ok && strings.Contains(wire.Canon(ix.Index), "name()") {
+						branchSets[wire.Canon(ix.X)] = true
+					}
+				}
+				return true
+			})
+			return true
+		})
+		return true
+	})
+	consulted := false
+	ast.Inspect(fd.Body, func(m ast.Node) bool {
+		rs, ok := m.(*ast.RangeStmt)
+		if !ok || !strings.HasPrefix(wire.Canon(rs.X), "f.Unions") {
+			return true
+		}
+		v := wire.Canon(rs.Value)
+		ast.Inspect(rs.Body, func(k ast.Node) bool {
+			if ix, ok := k.(*ast.IndexExpr); ok && branchSets[wire.Canon(ix.X)] && wire.Canon(ix.Index) == v+".Name" {
+				consulted = true
+			}
+			return true
+		})
+		return true
+	})
+	c.Check("R1", "Validate checks dupdef for Unions against union branch names", p.Pos(fd.Pos()), len(branchSets) > 0 && consulted,
+		"no loop compares a union's own name with the names defined by union branches: `union Shape { 1 -> struct Circle {} }` followed by `union Circle {}` declares Circle twice")
 	// typeDefined recurses into array elements, map keys and map values
 	if td := p.FuncDecl(pkg, "typeDefined"); td != nil {
 		src := srcOf(p, td.Body)
